@@ -676,12 +676,15 @@ func (m *PktModel) recvProbes(w *world.World, g Ghost, p packettypes.Packet, at 
 		add("port="+port, q, world.ProvingChainForRecv(q, at), ckey(q), 0, nil)
 	}
 	for _, rc := range append([]string{""}, m.Names...) {
-		if rc == p.RelayChain || rc == p.SourceChain || rc == p.DestinationChain {
+		if rc == p.RelayChain {
 			continue
 		}
 		q = p
 		q.RelayChain = rc
 		y := world.ProvingChainForRecv(q, at)
+		if y == at {
+			y = p.SourceChain // relay chain edited to the receiving chain's own name: present the source's proof
+		}
 		add("relay="+rc, q, y, ckey(q), 0, nil)
 		if y != p.SourceChain {
 			add("relay="+rc+"-proof-from-source", q, p.SourceChain, ckey(q), 0, nil)
@@ -813,12 +816,15 @@ func (m *PktModel) ackProbes(w *world.World, g Ghost, p packettypes.Packet, at s
 		add("port="+port, q, genuine, world.ProvingChainForAck(q, at), akey(q), 0, nil)
 	}
 	for _, rc := range append([]string{""}, m.Names...) {
-		if rc == p.RelayChain || rc == p.SourceChain || rc == p.DestinationChain {
+		if rc == p.RelayChain {
 			continue
 		}
 		q = p
 		q.RelayChain = rc
 		y := world.ProvingChainForAck(q, at)
+		if y == at {
+			y = p.DestinationChain
+		}
 		add("relay="+rc, q, genuine, y, akey(q), 0, nil)
 		if y != p.DestinationChain {
 			add("relay="+rc+"-proof-from-dest", q, genuine, p.DestinationChain, akey(q), 0, nil)
